@@ -178,25 +178,47 @@ def main(argv=None):
     # clauses that need the exact (unabstracted) semantics are additionally proved with the sequence length fixed
     # (all integer coordinates, block count n): reported as separate obligations '<clause>[len=n]'
     also_jobs = [(m, c.name, seed, None, n) for m, c in cases if c.proved for n in getattr(c, "also_scopes", ())]
-    with mp.Pool(min(args.jobs, max(1, len(jobs) + len(also_jobs)))) as pool:
-        all_res = pool.map(_worker, jobs + also_jobs, chunksize=1) if jobs else []
+    phases = {}
+    tp = time.time()
+
+    def phase(name):
+        nonlocal tp
+        phases[name] = round(time.time() - tp, 1)
+        tp = time.time()
+
+    # longest cases first (a long case started last would otherwise determine the wall time)
+    order_hint = _load_case_times(prop)
+    jobs.sort(key=lambda j: -order_hint.get(j[1], 1e9))
+    known = [k for k in load_known() if k.get("property") == prop]
+    from concurrent.futures import ThreadPoolExecutor
+    side = ThreadPoolExecutor(1)
+    with mp.Pool(args.jobs) as pool:
+        # the bounded tier (native subprocesses) and the canary mutants run alongside the proof jobs
+        bounded_future = side.submit(run_bounded, prop, cases, tier, known)
+        all_res_async = pool.map_async(_worker, jobs + also_jobs, chunksize=1) if jobs else None
+        canaries_started = start_canaries(prop, pool, seed)
+        all_res = all_res_async.get() if all_res_async is not None else []
+        phase("proof")
         results, also_results = all_res[:len(jobs)], all_res[len(jobs):]
         # ------------------------------------------------------------ finite-scope refutation of undecided VCs
         # (quantifier instantiation is refutation-incomplete: a false quantified VC answers 'unknown', DESIGN 2.9)
         fs_jobs = []
-        for (m, c), r in zip([(m, c) for m, c in cases if c.proved], results):
+        res_by_name = {r["case"]: r for r in results}
+        for (m, c), r in [((m, c), res_by_name[c.name]) for m, c in cases if c.proved]:
             if getattr(c, "scopes", None) and any(v["status"] == "unknown" for v in r["verdicts"]):
                 fs_jobs += [(m, c.name, seed, None, n) for n in c.scopes]
         fs_results = pool.map(_worker, fs_jobs, chunksize=1) if fs_jobs else []
+        phase("finite-scope-fallback")
         # ------------------------------------------------------------ canaries (engine must catch seeded mutants)
-        canary_report = run_canaries(prop, pool, seed)
+        canary_report = finish_canaries(canaries_started)
         # ------------------------------------------------------------ CPython cross-check of the encoding
+        phase("canaries(remaining)")
         xcheck = run_crosscheck(cases, pool, seed, tier)
+        phase("cpython-crosscheck")
     by_case = {r["case"]: r for r in results}
     fs_by_case = {}
     for r in fs_results:
         fs_by_case.setdefault(r["case"], []).append(r)
-    known = [k for k in load_known() if k.get("property") == prop]
     obligations = []
     refuted = []
     confirmed_any = []  # violations reproduced on the real code: they stand whatever else the run reports
@@ -261,14 +283,48 @@ def main(argv=None):
     except Exception as ex:
         nres = [{"error": str(ex)} for _ in njobs]
     it = iter(nres)
-    for o in refuted:
-        nat = next(it) if o["prims"] is not None else None
-        rp = write_replay(prop, o, nat)
+
+    def _confirms(o, nat):
         clause = o["name"].split("[len=")[0]
-        confirmed = bool(nat and not nat.get("skip") and not nat.get("error")
-                         and nat.get("checks", {}).get(clause) is False)
-        o["native"] = nat
-        o["confirmed"] = confirmed
+        return bool(nat and not nat.get("skip") and not nat.get("error")
+                    and nat.get("checks", {}).get(clause) is False)
+
+    for o in refuted:
+        o["native"] = next(it) if o["prims"] is not None else None
+        o["confirmed"] = _confirms(o, o["native"])
+    # second chance for a failing input: a refutation obtained through a loop invariant or a callee contract gives a
+    # model of the ABSTRACTED program, which need not replay; where the case declares finite scopes, the same clause
+    # is searched with the real loops unrolled at those block counts and every model found is replayed natively
+    case_by_name = {c.name: (m, c) for m, c in cases}
+    retry = sorted({o["case"] for o in refuted if not o["confirmed"] and match_known(known, o) is None
+                    and getattr(case_by_name[o["case"]][1], "scopes", None)})
+    if retry:
+        rjobs = [(case_by_name[n][0], n, seed, None, k) for n in retry for k in case_by_name[n][1].scopes]
+        with mp.Pool(min(args.jobs, len(rjobs))) as pool2:
+            rres = pool2.map(_worker, rjobs, chunksize=1)
+        cands = []
+        for rr in rres:
+            for fv in rr["verdicts"]:
+                if fv["status"] == "refuted" and fv["prims"] is not None:
+                    cands.append((rr["case"], rr["scope"], fv))
+        try:
+            cnat = run_native([dict(module=case_by_name[cn][0], case=cn, prims=fv["prims"]) for cn, _, fv in cands])
+        except Exception:
+            cnat = [None] * len(cands)
+        for o in refuted:
+            if o["confirmed"] or o["case"] not in retry:
+                continue
+            for (cn, scope, fv), nat in zip(cands, cnat):
+                if cn == o["case"] and fv["name"] == o["name"].split("[len=")[0] and _confirms(o, nat):
+                    o["detail"] = (f"{o['detail'][:200]} || failing input found with the loops unrolled at block "
+                                   f"count {scope}: {fv['detail'][:150]}")
+                    o["prims"], o["native"], o["confirmed"] = fv["prims"], nat, True
+                    break
+    phase("native-replay")
+    for o in refuted:
+        nat = o["native"]
+        confirmed = o["confirmed"]
+        rp = write_replay(prop, o, nat)
         kf = match_known(known, o)
         if kf is not None:
             lines.append(f"KNOWN-FINDING: property={prop} {kf['what']}"
@@ -284,7 +340,9 @@ def main(argv=None):
                      f"native: {json.dumps(nat)[:300] if nat else 'n/a'}")
         bump(1)
     # ---------------------------------------------------------------- bounded tier
-    bounded_report, blines, bcode = run_bounded(prop, cases, tier, known)
+    bounded_report, blines, bcode = bounded_future.result()
+    side.shutdown()
+    phase("bounded(remaining)")
     lines += blines
     bump(bcode)
     for l in canary_report["lines"]:
@@ -339,11 +397,13 @@ def main(argv=None):
             "known_findings": kf_report,
             "file_hashes": files,
             "cases": [c.name for _, c in cases],
+            "case_seconds": {r["case"]: r.get("seconds") for r in results},
             "cases_run_only_in_thorough_tier": skipped_thorough,
             "not_covered": NOT_COVERED.get(prop, []),
         },
         "assumptions": ASSUMPTIONS,
         "wall_s": round(wall, 3),
+        "phases_s": phases,
         "violations": sum(1 for l in lines if l.startswith("VIOLATION")),
     }
     if not args.no_evidence:
@@ -393,6 +453,15 @@ NOT_COVERED = {
 }
 
 
+def _load_case_times(prop):
+    """per-case seconds of the previous run (scheduling hint only; absent on a fresh checkout)."""
+    try:
+        ev = json.load(open(os.path.join(HERE, "evidence", f"{prop}.json")))
+        return {k: v or 0 for k, v in ev["coverage"].get("case_seconds", {}).items()}
+    except Exception:
+        return {}
+
+
 def match_known(known, o):
     for k in known:
         if k.get("status") != "known":
@@ -429,7 +498,7 @@ def replay_file(path):
 
 
 # ------------------------------------------------------------------------------------------------- canaries
-def run_canaries(prop, pool, seed):
+def start_canaries(prop, pool, seed):
     import contracts
     report, lines, failed = [], [], False
     jobs = []
@@ -448,8 +517,14 @@ def run_canaries(prop, pool, seed):
                 continue
             jobs.append(("contracts." + modname, can["case"], seed, {path: src.replace(can["old"], can["new"])}))
             meta.append(can)
-    results = pool.map(_worker, jobs, chunksize=1) if jobs else []
-    for can, r in zip(meta, results):
+    handle = pool.map_async(_worker, jobs, chunksize=1) if jobs else None
+    return dict(handle=handle, meta=meta, report=report)
+
+
+def finish_canaries(started):
+    report, lines, failed = started["report"], [], False
+    results = started["handle"].get() if started["handle"] is not None else []
+    for can, r in zip(started["meta"], results):
         killed = any(v["status"] == "refuted" and v["name"] == can["expect"] for v in r["verdicts"])
         report.append(dict(name=can["name"], applied=True, killed=killed, expect=can["expect"]))
         if not killed:
